@@ -26,6 +26,8 @@ pub struct Gen {
     pub pool: Vec<Vec<u8>>,
     /// probability (out of 8) that a label comes from the pool
     pub share: u64,
+    /// every generated name is the root name (the one name whose in-place form has no label at all)
+    pub root_only: bool,
 }
 
 pub fn mk_name(labels: &[Vec<u8>]) -> Name<'static> {
@@ -54,7 +56,7 @@ impl Gen {
             b"A".to_vec(),
             b"Local".to_vec(),
         ];
-        Gen { rng: Rng::new(seed), pool, share: 6 }
+        Gen { rng: Rng::new(seed), pool, share: 6, root_only: false }
     }
 
     pub fn label(&mut self) -> Vec<u8> {
@@ -76,6 +78,7 @@ impl Gen {
 
     /// labels of a name whose wire form is at most 255 bytes
     pub fn labels(&mut self) -> Vec<Vec<u8>> {
+        if self.root_only { return vec![]; }
         let want = match self.rng.below(12) {
             0 => 0,
             1 => 20, // pushes against the 255 limit
